@@ -117,8 +117,13 @@ pub fn run(ctx: &mut LaneCtx) {
         SubSpec {
             name: "live-memory",
             cases: (1_440, 30_000),
-            rule: "generated targets with 0..8 application regions (any alignment, length 1..1 MiB, optionally ending at the last byte before an unmapped or PROT_NONE page) inside pattern-filled mappings, crash instruction pointer at start/+1/+127/+128/+129/mid/end-129..end-1 of an isolated mapping or outside every mapping, 1..33 threads (a fifth of the cases has more than 20, so that a triggered size limit shortens stacks); oracle = every descriptor's bytes equal the target's memory, requested regions / non-empty stacks / clipped 128-byte window present, no other region; non-trivial = unaligned or boundary-adjacent app region or clipped window; distinct = hash of case",
-            strategy: prop_oneof![4 => case_strategy(if ctx.tier == Tier::Quick { 12 } else { 33 }, 0), 1 => case_strategy(34, 21)].boxed(),
+            rule: "generated targets with 0..8 application regions (any alignment, length 1..1 MiB, optionally ending at the last byte before an unmapped or PROT_NONE page) inside pattern-filled mappings (one of which may have been made PROT_NONE afterwards, so that the fast read path fails and the /proc/pid/mem fallback is used), crash instruction pointer at start/+1/+127/+128/+129/mid/end-129..end-1 of an isolated mapping or outside every mapping, 1..33 threads (a fifth of the cases has more than 20, so that a triggered size limit shortens stacks); oracle = every descriptor's bytes equal the target's memory, requested regions / non-empty stacks / clipped 128-byte window present, no other region; non-trivial = unaligned or boundary-adjacent app region or clipped window; distinct = hash of case",
+            strategy: (prop_oneof![4 => case_strategy(if ctx.tier == Tier::Quick { 12 } else { 33 }, 0), 1 => case_strategy(34, 21)], proptest::option::weighted(0.3, (any::<u8>(), any::<u32>(), prop_oneof![1 => 0u32..64, 3 => any::<u32>()])))
+                .prop_map(|(mut c, s)| {
+                    c.sealed_app = s;
+                    c
+                })
+                .boxed(),
             max_shrink_iters: 150,
             log_current: true,
         },
